@@ -280,4 +280,7 @@ def run(ctx: Ctx, tier: str) -> Result:
     borrow(ctx, res, tier, "c13", ("C13.MATCH",), "C12.REMOVE", "an unregistered tracepoint leaves the registered set, and only it: removal by identity, harmless when the handle is unknown (a failing "
            "removal leaves the tracepoint installed and published again)")
     borrow(ctx, res, tier, "c13", ("C13.ADD",), "C12.NOTIFY", "every change of the configuration is submitted to the listeners")
+    borrow(ctx, res, tier, "c11", ("C11.ISOLATE",), "C12.APPLY", "an answer with one tracepoint the agent cannot interpret is still taken over (hash and the other tracepoints): "
+           "otherwise the same answer is refused at every poll and the agent stays on the older configuration")
+    borrow(ctx, res, tier, "c03", ("C03.LOOP",), "C12.ACT", "the agent acts on every installed tracepoint of a location, the registered ones next to the service's")
     return res
